@@ -8,7 +8,7 @@ META = {
          'Decides the envelope clause for every input/state: every Fan.SetPwm on the regulation path writes pwmMap[FindClosest(r, keys)] with r proved in [GetMinPwm()+offset, GetMaxPwm()] by a symbolic range analysis that treats curve value, control-loop output and RPM as unknown (so it covers all algorithms, NaN/absurd readings and histories); keys are proved recomputed after every map change.',
          'assumes min<=max initially, PWM-map outputs in 0..255, ints < 2^53; FindClosest nearest-ness is C12 (not decided)'),
  'C02': ('§4 C02', 'symbolic range analysis + store/who-may-write rules',
-         'Decides: request >= GetMinPwm()+offset on every non-error return; the offset only ever increases; no forced SetMinPwm on the regulation path; the raise path returns >= stalled request + 1; non-neverStop fans have minimum 0.',
+         'Decides: request >= GetMinPwm()+offset on every non-error return; the offset only ever increases; the floor is raised only where request < GetMaxPwm() is established (the raised floor never passes the maximum); no forced SetMinPwm on the regulation path; the raise path returns >= stalled request + 1; non-neverStop fans have minimum 0.',
          'stall *detection* is C10; fan limits assumed 0<=min<=max<=255'),
  'C03': ('§4 C03', 'interprocedural typestate (must-pass-through) + channel typestate',
          'Decides structural necessary conditions: every return of the control goroutine and the failed-initialisation return pass through a restore that ends in a confirmed mode switch-back to the recorded non-manual mode or SetPwm(255); the mode write is read back; the signal actor cancels the shared context; the notify channel is never closed without signal.Stop; every actor of the per-fan group returns the nil constant (a non-nil actor error reaches panic(err) in the daemon wrapper before any restore).',
@@ -20,22 +20,22 @@ META = {
          'Decides: every successful cycle re-asserts manual mode (guarded only by ControlMode support); the write is skipped only when a fresh successful read equals the expected value; the third-party counter is incremented only under a fresh successful read differing from the same expected-value term the writer uses and is never reset (a whole-struct store of the statistics must carry the count over).',
          'assumes the fan reads back what was written (quantifier)'),
  'C06': ('§4 C06', 'symbolic range analysis with assume/guarantee on SpeedCurve.Evaluate',
-         'Decides only the range clause 0..255 for linear(min/max), PID, and function types sum/difference/minimum/maximum/default, plus (R-members) that a function curve evaluates every configured member (one value per entry of function.curves on every path); agreement with the documented function, delta/average/steps are not decided.',
+         'Decides only the range clause 0..255 for linear(min/max), PID, and function types sum/difference/minimum/maximum/default, plus (R-members) that a function curve evaluates every configured member (one value per entry of function.curves on every path) and (R-current) that every successful return of Evaluate is preceded by SetValue of the returned value; agreement with the documented function, delta/average/steps are not decided.',
          'assumes finite non-NaN sensor values and min<max; PidLoop.Loop assumed non-NaN'),
  'C07': ('§4 C07', 'monotonicity analysis (sign-of-dependence abstract interpretation over SSA, piecewise definitions ordered with the symbolic range analysis)',
-         'Decides, per code form, that the output is non-decreasing in the designated input: linear min/max ramp in the smoothed temperature (pieces ordered around the truncated ramp), the step-form wrapper and the interpolating expression inside one segment, function curves sum/minimum/maximum/average in every member value, DirectControlLoop.Cycle in its target, the target computation (curve value -> request) and the write routine (request -> value handed to Fan.SetPwm); (R-keys) the key list a lookup table is searched with is the sorted key set of that same table.',
+         'Decides, per code form, that the output is non-decreasing in the designated input: linear min/max ramp in the smoothed temperature (pieces ordered around the truncated ramp), the step-form wrapper and the interpolating expression inside one segment, function curves sum/minimum/maximum/average in every member value, DirectControlLoop.Cycle in its target, the target computation (curve value -> request) and the write routine (request -> value handed to Fan.SetPwm); (R-keys) the key list a lookup table is searched with is the sorted key set of that same table; (R-skip) the write is skipped only when a fresh successful read equals the value to be written (a stale value would break monotonicity of the PWM the fan runs at in the request).',
          'between different interpolation segments and inside util.FindClosest monotonicity is a stated hypothesis (relational loop invariants; not decided); premises of the property (non-decreasing steps / PWM map, min<max) and maxPwmChangePerCycle >= 0, fan max >= min are recorded hypotheses; IEEE rounding assumed monotone'),
  'C08': ('§4 C08', 'error-propagation path rules + interprocedural taint (non-finite floats)',
-         'Decides the fault clause (no Sensor.GetValue converts a failed read into a value; the monitor never updates the average after a failed read; no value parsed by strconv.ParseFloat reaches the average without IsNaN/IsInf guards) and no implementation reads through an open handle remembered in the sensor object (every poll opens the configured source anew) and the one-step hull clause in real arithmetic (the stored average is UpdateSimpleMovingAvg(old, window, reading) of the same sensor, which is proved to lie between old average and reading for window >= 1).',
+         'Decides the fault clause (no Sensor.GetValue - nor util.SafeCmdExecution behind the command sensor - converts a failed read into a value; the monitor never updates the average after a failed read; no value parsed by strconv.ParseFloat reaches the average without IsNaN/IsInf guards) and no implementation reads through an open handle remembered in the sensor object (every poll opens the configured source anew) and the one-step hull clause in real arithmetic (the stored average is UpdateSimpleMovingAvg(old, window, reading) of the same sensor, which is proved to lie between old average and reading for window >= 1).',
          'floating-point rounding and the geometric convergence rate are not decided'),
  'C09': ('§4 C09', 'crash-site inventory over the call graph + error-propagation/taint rules',
-         'Decides: no panic / does-not-return call / unchecked error type assertion is reachable from the per-cycle entry points on an error path; curve errors are propagated; cycle errors never reach a panic or an actor return; all actor returns of the per-fan group and the sensor monitor are nil; when the control goroutine gives up on a fan every return passes the restore typestate shared with C03; the value result of a fallible library call (pointer/interface, error) is dereferenced only where that call\'s error is established nil (os.Stat after a successful EvalSymlinks with the not-found case handled is the one documented exception); (R-iodata) every index, slice expression and integer division on data that comes from a standard-library call (file contents, command output, split lines) in the functions reachable from the per-cycle entries is proved in bounds by a dominating length guard, range loop or the range analysis.',
+         'Decides: no panic / does-not-return call / unchecked error type assertion is reachable from the per-cycle entry points on an error path; curve errors are propagated; cycle errors never reach a panic or an actor return; all actor returns of the per-fan group and the sensor monitor are nil; when the control goroutine gives up on a fan every return passes the restore typestate shared with C03; the value result of a fallible library call (pointer/interface, error) is dereferenced only where that call\'s error is established nil (os.Stat after a successful EvalSymlinks with the not-found case handled is the one documented exception); (R-iodata) every index, slice expression and integer division on data that comes from a standard-library call (file contents, command output, split lines) in the functions reachable from the per-cycle entries is proved in bounds by a dominating length guard, range loop or the range analysis; (R-lastgood) a failed sensor read never reaches the moving-average update; (R-errnil) methods are invoked on error values only where they are established non-nil.',
          'library internals (prometheus, echo) summarised; usefulness of continued regulation not decided'),
  'C10': ('§4 C10', 'symbolic range analysis + data-flow rule on the stall predicate',
          'Decides the step/termination structure (raise by >=1 on the stall path; (R-raise) the floor-raising store/call reached from the stall edge writes offset+k, k>=1, on every path, skipping only where GetMinPwm()+offset >= GetMaxPwm() is implied by the branch; stall at max returns the sentinel error which leads to restore), the poll structure (every poll of the RPM monitor feeds a reading into the average unless the RPM read itself failed) and the threshold precondition (a stall test against a non-positive constant on an exponential average can never fire once the fan has spun); not the latency itself.',
          'number of polls and pacing are timing (not decided)'),
  'C11': ('§4 C11', 'partial-operation inventory + validator-obligation rules + sibling agreement',
-         'Decides the crash-freedom half structurally: every configuration-dependent partial operation on the instantiate/evaluate path has a local guard or a verified validator check; factory and validator agree on backends; the run-time registries key objects by the id exactly as the validator compares it; cycle detection covers every member edge.',
+         'Decides the crash-freedom half structurally: every configuration-dependent partial operation on the instantiate/evaluate path has a local guard or a verified validator check; factory and validator agree on backends; the run-time registries key objects by the id exactly as the validator compares it; cycle detection covers every member edge and only the own members of the curve (the edge list is not carried over from the curves listed before, which would reject acyclic configurations).',
          'acceptance semantics, Tarjan correctness and the converse (documented forms accepted) are not decided'),
  'C12': ('§4 C12', 'value-provenance + typestate (composition only)',
          'Decides the composition: written value = pwmMap[FindClosest(request, keys)], keys = sorted(ExtractKeysWithDistinctValues(pwmMap)) recomputed after every map change, argument order correct, chosen key used as map index. Every supported input reported by the extraction is a key of the map. The search itself is not decided.',
@@ -59,10 +59,10 @@ META = {
          'Decides the property at the level of code paths: only the checked entry point creates processes with a non-constant program; the exec call is reachable only through the nil-error edge of the permission check on the same value in the same activation (no memoisation); the check establishes uid==0, (gid==0 or no group write), no other write on the resolved file; nothing changes how the checked program string is resolved between check and start (no store to Cmd.Dir/Path/Args); (R-once) one successful check licenses one process start: after a process-creating call no further one is reachable in the same activation without crossing the nil-error edge of a new check (no retry loop around the start); the validator applies it to the config file whenever a cmd entry exists; the daemon starts only after validation.',
          'TOCTOU between check and exec is outside the statement; os/exec, os.Stat semantics trusted'),
  'C19': ('§4 C19', 'typestate on *exec.Cmd + blocking-operation and crash-site inventory + error-propagation',
-         'Decides the structural preconditions of the bound: CommandContext with WithTimeout(timeout<=2s), WaitDelay set before Output, no unbounded blocking operation and no comma-less error assertion in the call tree, value results of fallible library calls used only where their error is nil, cmd.ProcessState (nil for a command that could not be started) used only under a nil test or through nil-tolerant methods, failures returned as errors, parse errors returned by the cmd fan/sensor methods; (R-iodata) command output is indexed / sliced only under a length guard in the consumers of SafeCmdExecution.',
+         'Decides the structural preconditions of the bound: CommandContext with WithTimeout(timeout<=2s), WaitDelay set before Output, no unbounded blocking operation and no comma-less error assertion in the call tree, value results of fallible library calls used only where their error is nil, cmd.ProcessState (nil for a command that could not be started) used only under a nil test or through nil-tolerant methods, failures returned as errors, parse errors returned by the cmd fan/sensor methods; (R-iodata) command output is indexed / sliced only under a length guard in the consumers of SafeCmdExecution; (R-errnil) methods are invoked on error values only where they are established non-nil (Output() may return nil although the deadline fired).',
          'the wall-clock bound itself is timing (not decided)'),
  'C20': ('§4 C20', 'lockset-based static race detection over a thread model',
-         'Decides a may-race over-approximation: every (field, thread-class pair) with a write and disjoint must-locksets is reported; today\'s pairs are recorded as known findings, any new pair is a violation.',
+         'Decides a may-race over-approximation: every (field, thread-class pair) with a write and no mutex held by both accesses, by at least one of them exclusively (RLock is a shared mode), is reported; today\'s pairs are recorded as known findings, any new pair is a violation.',
          'type-based object abstraction with private/shared context; only mutex synchronisation modelled'),
 }
 NA = {}
